@@ -46,15 +46,17 @@ def main():
     except Exception:
         meta = {}
     meta["property"] = a.pid
-    meta["base"] = f"benign/{a.base}/patch.diff (apply first; the seed's patch.diff is relative to the refactored tree)"
+    meta["base"] = "none (the pinned tree itself; checked on a scratch copy)" if a.base == "none" else \
+        f"benign/{a.base}/patch.diff (apply first; the seed's patch.diff is relative to the refactored tree)"
     ran = []
     scratch = tempfile.mkdtemp(prefix="seed5-")
     detected, errors = {}, {}
     try:
         rc, out = sh(f"git -C /repo archive HEAD | tar -x -C {scratch}")
         assert rc == 0, out
-        rc, out = sh(f"patch -s -p1 < {os.path.join(VERIF, 'benign', a.base, 'patch.diff')}", cwd=scratch)
-        assert rc == 0, out
+        if a.base != "none":
+            rc, out = sh(f"patch -s -p1 < {os.path.join(VERIF, 'benign', a.base, 'patch.diff')}", cwd=scratch)
+            assert rc == 0, out
         env = dict(os.environ, PYTHONPATH=os.path.join(scratch, "src"))
         demo = open(os.path.join(dst, "demo.py")).read()
         rc_clean, out_clean = sh(f"/venv/bin/python -W ignore {os.path.join(dst, 'demo.py')}", cwd=scratch, env=env)
@@ -67,7 +69,7 @@ def main():
         rc_demo, out_demo = sh(f"/venv/bin/python -W ignore {os.path.join(dst, 'demo.py')}", cwd=scratch, env=env)
         ran.append(f"patched tree: demo.py -> exit {rc_demo}: {out_demo.strip().splitlines()[-1][:160] if out_demo.strip() else ''}")
         rc_c, _ = sh("/venv/bin/python -W ignore -m compileall -q src", cwd=scratch, env=env)
-        confirmed = applies and rc_clean == 0 and rc_demo != 0 and "689 passed" in out_t and rc_c == 0 and not any(f"/tmp/wt{k}-" in demo for k in "579")
+        confirmed = applies and rc_clean == 0 and rc_demo != 0 and "689 passed" in out_t and rc_c == 0 and not any(f"/tmp/wt{k}-" in demo for k in "579BC")
         meta["confirmed"] = bool(confirmed)
         if confirmed:
             for pid in (a.checks.split(",") if a.checks else ALL):
